@@ -61,7 +61,7 @@ func TestCheck(t *testing.T) {
 	}
 	nmax := vk.Pick(r, 4, 5)
 	nall := vk.Pick(r, 3, 4) // up to here every failing kind, beyond only the wrong signature
-	iters := vk.Pick(r, 3, 4)
+	iters := vk.Pick(r, 3, 2)
 	var cfgs []ms.Config
 	for n := 1; n <= nmax; n++ {
 		kinds := []int{ms.SigWrong}
